@@ -18,7 +18,7 @@ from sim import shapes
 from sim.core import Rng, close, h64, Precondition
 
 PROPS = ["C12"]
-BUDGET = {"C12": {"quick": {"runs": 6000, "wall_cap_s": 110}, "thorough": {"runs": 120000, "wall_cap_s": 1500}}}
+BUDGET = {"C12": {"quick": {"runs": 12000, "wall_cap_s": 150}, "thorough": {"runs": 200000, "wall_cap_s": 1800}}}
 RULE = {"C12": "one case = one seeded history (3-30 steps) of public edits, reads, rejected edits, deep copies and container "
                "operations over up to 6 live shapes and 2 containers in a fresh process; non-trivial = the history contains a "
                "read -> edit -> read triple on one object where the first read filled a cache that the edit has to invalidate; "
@@ -93,7 +93,7 @@ def gen(prop, stream, tier, avoid):
             elif c == "csample":
                 op["value"] = rng.randint(3, 6)
             elif c == "cread":
-                op["views"] = [rng.pick(["evalpts", "bbox", "evalpts"])]
+                op["views"] = [rng.pick(["evalpts", "bbox", "evalpts", "vertices", "faces"])]
             ops.append(op)
         else:
             if rng.chance(knobs["reject_p"]):
@@ -537,6 +537,15 @@ def _check_container(ctx, world, ci, views, when):
         if view == "evalpts":
             got = [list(p) for p in cont.evalpts]
             exp = [list(p) for p in fresh.evalpts]
+        elif view in ("vertices", "faces"):
+            if c["kind"] != "surface" or not members:
+                continue
+            if view == "vertices":
+                got = [[v.id, list(v.uv), list(v.data)] for v in cont.vertices]
+                exp = [[v.id, list(v.uv), list(v.data)] for v in fresh.vertices]
+            else:
+                got = [[f.id] + list(f.vertex_ids) for f in cont.faces]
+                exp = [[f.id] + list(f.vertex_ids) for f in fresh.faces]
         else:
             if not members:
                 continue
@@ -712,7 +721,7 @@ def run(script, ctx):
             continue
         _check_reads(ctx, lv, i, VIEWS_ALL, [0.5, 0.25, 0.75][:lv.nd], "final sweep")
     for ci in range(len(world.conts)):
-        _check_container(ctx, world, ci, ["evalpts", "bbox"], "final sweep")
+        _check_container(ctx, world, ci, ["evalpts", "bbox", "vertices", "faces"], "final sweep")
 
 
 def _mark_edit_density(lv):
